@@ -196,7 +196,14 @@ class RvLex(Slice):
             elif r[0] != a:
                 findings.append(("disagreement", f"line {l!r}: real tokenizer says {['blank', 'syntax error', 'accepted'][a]}, model lexer {['blank', 'syntax error', 'accepted'][r[0]]}"))
         text = "\n".join(lines)
-        if True:
+        import re
+        reserved = set(RA.MNEMONICS) | {"li", "la", "mv", "nop"} | set(RA.ABI) | {"x%d" % i for i in range(32)} | {"fp"}
+        declared = [m.group(1).lower() for l in lines for m in [re.match(r"\s*([A-Za-z_][A-Za-z_0-9]*)\s*:", l)] if m]
+        if any(n in reserved for n in declared):
+            # a label or variable named like a mnemonic or a register: documented as unsupported (ASSUMPTIONS), the assembler's
+            # treatment of such a name is outside the claim — only the lexer verdicts above are compared for this text
+            cl.add("reserved-name")
+        else:
             sim, err = RA.impl_load(text)
             r = model.call([94, [], [], [ord(c) for c in text]])
             merr = r[0][0] if r[0] else None
